@@ -124,6 +124,12 @@ def stress_docs():
     # JSON-RPC ids built from method name and path: a space in either makes two ids collide
     res.append('JSIGHT 0.3\nURL "/x /y"\n  Protocol json-rpc-2.0\n  Method "a"\n    Result\n    {}\nURL /y\n  Protocol json-rpc-2.0\n  Method "a /x"\n    Result\n    {}\n')
     res.append('JSIGHT 0.3\nURL "/p q"\n  GET\n    200 any\nGET "/p q"\n  200 any\n')
+    # tags with descriptions, declared before and after the interactions that carry them, at every level
+    for order in (0, 1):
+        tags = 'TAG @t1 // first\n  Description\n    text of t1\nTAG @t2\n  Description\n  (\n    text of t2\n  )\nTAG @t3\n'
+        uses = ('GET /a\n  Tags @t1 @t3\n  200 any\nURL /u\n  Tags @t2\n  POST\n    200 any\n  PUT\n    Tags @t1\n    200 any\n'
+                'URL /r\n  Protocol json-rpc-2.0\n  Method m\n    Tags @t2 @t3\n    Result\n    {}\nDELETE /d\n  200 any\n')
+        res.append('JSIGHT 0.3\n' + (tags + uses if order == 0 else uses + tags))
     return res
 
 
@@ -214,7 +220,7 @@ def main(tier):
             for k in range(nmut):
                 cases.append({"id": "mu%d_%d" % (n, k), "files": {name: b64(mutate(data, rnd))}, "root": name})
     docs = []
-    for i, (num, mb) in enumerate([(4000, 5), (4000, 8)] if thorough else [(500, 5), (400, 8)]):
+    for i, (num, mb) in enumerate([(4000, 5), (4000, 8)] if thorough else [(1000, 5), (800, 8)]):
         docs += c04.gen_docs(chk, num, mb, sd * 100 + 70 + i, workers=8 if thorough else 4)
     for n, m in enumerate(docs):
         try:
